@@ -218,6 +218,31 @@ class Model:
         return self.lines[line - 1].strip() if 0 < line <= len(self.lines) else ''
 
 
+def axioms_used(model, fn_ids):
+    """names of `ax_*` axioms reachable (through lemma_* calls) from the given lemma functions of this model"""
+    starts = model.fns
+    region = {}
+    for k, (ln, fid) in enumerate(starts):
+        end = starts[k + 1][0] if k + 1 < len(starts) else len(model.lines) + 1
+        region[fid] = '\n'.join(model.lines[ln - 1:end - 1])
+    byname = {}
+    for fid in region:
+        byname.setdefault(fid.split('::')[-1], []).append(fid)
+    seen, todo, ax = set(), list(fn_ids), set()
+    while todo:
+        f = todo.pop()
+        if f in seen or f not in region:
+            continue
+        seen.add(f)
+        for m in re.finditer(r'\b(ax_\w+|lemma_\w+)\s*\(', region[f]):
+            n = m.group(1)
+            if n.startswith('ax_'):
+                ax.add(n)
+            else:
+                todo += byname.get(n, [])
+    return sorted(ax)
+
+
 def short_fn(vname):
     """'snow_verus::handshakestate::HandshakeState::new' -> 'handshakestate::HandshakeState::new'"""
     return vname.split('::', 1)[1] if '::' in vname else vname
@@ -664,6 +689,7 @@ def check_property(pid, tier, res=None, vres=None, quiet=False):
     prop = load_props().get(pid, {})
     fset = {(f[0], f[1], f[2]) for f in found}
     trusted = sorted({'[%s] %s: %s%s' % (a[0], a[1], a[2], (' - ' + a[3]) if a[3] else '') for a in allow if (a[0], a[1], a[2]) in fset})
+    axs = sorted({a for u in res['units'] for a in axioms_used(u['model'], [k[0] for k in mine if k[1] == 'lemma'])})
     ev = {
         'property_id': pid, 'tier': tier, 'seed': seed, 'level': 'proof',
         'coverage': {
@@ -680,12 +706,13 @@ def check_property(pid, tier, res=None, vres=None, quiet=False):
             'verus_wall_s_whole_file': round(res['wall_s'], 1),
             'result_cache_hit': res['cache_hit'],
             'whole_file_verified_functions': res['verified'], 'whole_file_failed_functions': res['nerrors'],
+            'axioms_used': axs,
             'vacuity_probe': vac_note or 'not run in this tier',
             'replay_probe': ({'ran': True, 'tests': probe.get('tests'), 'findings_for_this_property': pf, 'wall_s': probe.get('wall_s'), 'cache_hit': probe.get('cache_hit'), 'error': probe.get('error')}
                              if probe else {'ran': False, 'why': 'the proof is clean for this property; the counterexample search runs only on failure/undecided or in the thorough tier'}),
             'all_obligations': sorted('%s#%s' % k for k in mine),
         },
-        'assumptions': ASSUMPTIONS_COMMON + PROP_ASSUMPTIONS.get(pid, []),
+        'assumptions': ASSUMPTIONS_COMMON + PROP_ASSUMPTIONS.get(pid, []) + (['named axioms used by the lemmas of this property: ' + ', '.join(axs) + ' (status of each: contracts/trusted.txt, DESIGN.md section 3)'] if axs else ['no axiom about the primitives is used by this property']),
         'wall_s': round(time.time() - t0 + (0 if res['cache_hit'] else res['wall_s']), 2),
         'violations': len({oid for oid, _ in violations}) + (1 if (pf and not violations) else 0),
     }
@@ -700,9 +727,10 @@ def check_property(pid, tier, res=None, vres=None, quiet=False):
 
 
 ASSUMPTIONS_COMMON = [
-    'Extraction rules R1-R14 (framework/extract.py) preserve the semantics of /repo/src; dropped items are unverified',
-    'Trait contracts of Hash/Cipher/Dh/Random/CryptoResolver are ASSUMED for implementations outside the verified text (all built-in primitives); proved only for the default methods whose bodies are in snow',
-    'Primitives are uninterpreted functions hash_fn/aead_enc/aead_dec/dh_pub/dh_fn; randomness is a deterministic function of a hidden RNG state (gen_sk/gen_next)',
+    'Extraction rules R1-R19 (framework/extract.py, DESIGN.md 2.1) preserve the semantics of /repo/src; dropped items are unverified',
+    'Trait contracts of Hash/Cipher/Dh/Random/CryptoResolver are ASSUMED for implementations outside the verified text (ring.rs, P-256, XChaChaPoly, Kyber, custom resolvers); for resolvers/default.rs they are proved relative to ASSUMED contracts of the third-party crates (spec/deps/rustcrypto.rs)',
+    'The standard algorithms (SHA-2, BLAKE2, ChaCha20-Poly1305, AES-256-GCM, X25519) are uninterpreted functions; randomness is a deterministic function of a hidden RNG state (gen_bytes/gen_next)',
+    'Path-split verification (DESIGN.md 2.3): functions with @split cases are verified one case per query, the other cases cut by framework-inserted assume(false)',
     'The transcription of Noise rev 34 in /verif/spec is faithful',
     'vstd specifications of core/alloc (slices, Vec, Option, Result), Verus, Z3, rustc are sound',
     'ASSUME-ADDR: payload.len() + message.len() + 128 <= usize::MAX for the two buffers of one call',
